@@ -169,7 +169,8 @@ Record SGood (s : kstate) (C0 : list nat) : Prop := {
   sg_level : (-1 <= k_level s <= 8)%Z;
   sg_length : k_length s = wrap64 (Z.of_nat (length C0));
   sg_iters : k_iters s = [];
-  sg_alive : k_alive s = true
+  sg_alive : k_alive s = true;
+  sg_hlvl : forall h, dnode s HEADER = Ok h -> (0 <= sn_level h)%Z
 }.
 
 Lemma chain_app : forall s a b l, chain s (a ++ b) l = chain s a l ++ chain s b l.
@@ -527,6 +528,9 @@ Proof.
   - apply (sg_length _ _ G).
   - apply (sg_iters _ _ G).
   - apply (sg_alive _ _ G).
+  - intros h0. rewrite dnode_put_node by auto. destruct (Nat.eqb id HEADER) eqn:E0.
+    + apply Nat.eqb_eq in E0. subst id. intro Q. inversion Q; subst h0. rewrite HL. apply (sg_hlvl _ _ G). auto.
+    + apply (sg_hlvl _ _ G).
 Qed.
 
 Lemma sent_put_node : forall s id n' x, id < length (k_nodes s) ->
@@ -1003,7 +1007,8 @@ Proof.
     - rewrite LVMAX. generalize (sg_level _ _ G). unfold LEVEL_MAX in *. lia.
     - unfold s'. simpl. rewrite KL, LEN2, LEN1, (sg_length _ _ G), wrap64_succ. f_equal. rewrite E, !app_length. simpl. lia.
     - unfold s'. simpl. rewrite KI, IT2, IT1. apply (sg_iters _ _ G).
-    - unfold s'. simpl. rewrite KA, AL2, AL1. apply (sg_alive _ _ G). }
+    - unfold s'. simpl. rewrite KA, AL2, AL1. apply (sg_alive _ _ G).
+    - intros h0. rewrite OLD3 by auto. apply (sg_hlvl _ _ G). }
   split. { unfold hsubs. rewrite H1. reflexivity. }
   split. { intros y Hy. unfold sent. rewrite OLD3 by (apply CLT; auto). auto. }
   split. { unfold sent. rewrite NEW3. reflexivity. }
@@ -1399,6 +1404,7 @@ Proof.
       rewrite E, !app_length. simpl. lia.
     + unfold s'. simpl. rewrite W5, P7. unfold s2. simpl. rewrite SIT. apply (sg_iters _ _ G).
     + unfold s'. simpl. rewrite W7, P9. unfold s2. simpl. rewrite SAL. apply (sg_alive _ _ G).
+    + intros h0. rewrite DS by auto. apply (sg_hlvl _ _ G).
 Qed.
 
 (* ---------- destroy ---------- *)
@@ -1520,4 +1526,89 @@ Proof.
   - rewrite app_nil_r. rewrite live_kabs. simpl. rewrite flat_map_map. apply flat_map_ext'. intros x Hx.
     destruct (sg_node _ _ G x Hx) as [n [k [N1 [N2 _]]]]. unfold del_notifs_k. rewrite N1, N2.
     rewrite (sent_node _ _ _ _ N1 N2). unfold r_notify. simpl. unfold hsubs. rewrite H1. reflexivity.
+Qed.
+
+(* ---------- traversal ---------- *)
+Definition bumpk (n : snode) : snode :=
+  {| sn_key := sn_key n; sn_val := sn_val n; sn_level := sn_level n; sn_ref := S (sn_ref n); sn_subs := sn_subs n; sn_fwd := sn_fwd n |}.
+
+Lemma put_node_same : forall s p n, dnode s p = Ok n -> put_node s p n = s.
+Proof.
+  intros. apply dnode_ok in H. destruct H as [c [C1 [C2 C3]]]. destruct s. unfold put_node, set_nodes. simpl in *. f_equal.
+  apply list_ext. intros i. rewrite nth_error_upd. destruct (Nat.eqb p i) eqn:E; auto. apply Nat.eqb_eq in E. subst i.
+  assert (p < length k_nodes) by (apply nth_error_Some; congruence). apply Nat.ltb_lt in H. rewrite H, C1. destruct c; simpl in *; subst; auto.
+Qed.
+
+Lemma put_node_twice : forall s p a b, put_node (put_node s p a) p b = put_node s p b.
+Proof.
+  intros. unfold put_node, set_nodes. simpl. f_equal. apply list_ext. intros i. rewrite !nth_error_upd, upd_length. destruct (Nat.eqb p i); auto.
+Qed.
+
+Lemma put_node_comm : forall s p x a b, p <> x -> put_node (put_node s p a) x b = put_node (put_node s x b) p a.
+Proof.
+  intros. unfold put_node, set_nodes. simpl. f_equal. apply list_ext. intros i. rewrite !nth_error_upd, !upd_length.
+  destruct (Nat.eqb p i) eqn:E1, (Nat.eqb x i) eqn:E2; auto. apply Nat.eqb_eq in E1, E2. subst. contradiction.
+Qed.
+
+Lemma node_deref_bumped_k : forall s p n, dnode s p = Ok (bumpk n) -> sn_ref n = 1 ->
+  k_node_deref kv_fixed s p = Ok (put_node s p n, []).
+Proof.
+  intros. unfold k_node_deref. rewrite H. cbn [bind]. simpl sn_ref. rewrite H0. destruct n; simpl in *; subst. reflexivity.
+Qed.
+
+(* one skiplist_iter_next of a traversal over an untouched list: p is the current position (header or an entry) *)
+Lemma iter_next_k : forall s C0 pre p T n, SGood s C0 -> HEADER :: C0 = pre ++ p :: T -> dnode s p = Ok n ->
+  k_iter_next kv_fixed (put_node s p (bumpk n)) (Some p) =
+  match T with
+  | [] => Ok (s, None, None, [])
+  | x :: _ => match dnode s x with
+              | Ok nx => Ok (put_node s x (bumpk nx), Some x, Some (nkey s x, sn_val nx), [])
+              | Err e => Err e
+              end
+  end.
+Proof.
+  intros s C0 pre p T n G E N.
+  assert (PIN : In p (HEADER :: C0)) by (rewrite E; apply in_or_app; right; left; auto).
+  assert (LT : p < length (k_nodes s)) by (eapply dnode_lt; eauto).
+  assert (R1 : sn_ref n = 1 /\ (0 <= sn_level n)%Z).
+  { destruct PIN as [Q|Q]. subst p. destruct (sg_hdr _ _ G) as [h [H1 [H2 H3]]]. rewrite H1 in N. inversion N; subst. split; auto. apply (sg_hlvl _ _ G); auto.
+    destruct (sg_node _ _ G p Q) as [m [k [M1 [M2 [M3 [M4 M5]]]]]]. rewrite M1 in N. inversion N; subst. split; auto. lia. }
+  destruct R1 as [R1 R2].
+  assert (NDH : NoDup (HEADER :: C0)).
+  { constructor. intro Q. destruct (sg_node _ _ G HEADER Q) as [_ [_ [_ [_ [_ [_ Q2]]]]]]. congruence. eapply sgood_nodup; eauto. }
+  assert (LKT : Linked s 0 p T).
+  { generalize (sg_linked _ _ G 0 (Nat.le_0_l _)). rewrite chain_level0. intro L.
+    destruct pre as [|q pre'].
+    - simpl in E. inversion E; subst. auto.
+    - simpl in E. inversion E; subst q. eapply linked_suffix. exact L. exact H1. }
+  assert (TC : forall x, In x T -> In x C0 /\ x <> p).
+  { intros x Hx. split.
+    - destruct pre as [|q pre']; simpl in E; inversion E; subst; auto. apply in_or_app. right; right; auto.
+    - intro; subst x. rewrite E in NDH. apply NoDup_remove_2 in NDH. apply NDH. apply in_or_app; auto. }
+  unfold k_iter_next. rewrite dnode_put_node by auto. rewrite Nat.eqb_refl. cbn [bind].
+  simpl kx_removed. simpl sn_level. replace (Z.ltb (sn_level n) 0) with false by (symmetry; apply Z.ltb_ge; auto). cbn [andb].
+  (* node_next *)
+  assert (NX : node_next (search_fuel (put_node s p (bumpk n))) (put_node s p (bumpk n)) p = Ok (hd_error T)).
+  { unfold search_fuel. destruct (12 * (length (k_nodes (put_node s p (bumpk n))) + 2)) eqn:F; [lia|]. cbn [node_next].
+    rewrite (fwd_put_node s p n (bumpk n)) by auto. rewrite (linked_head _ _ _ _ LKT). cbn [bind]. destruct T as [|x T']; auto. cbn [hd_error].
+    destruct (TC x (or_introl eq_refl)) as [XC XP].
+    destruct (sg_node _ _ G x XC) as [m [k [M1 [M2 [M3 _]]]]].
+    rewrite dnode_put_node by auto. replace (Nat.eqb p x) with false by (symmetry; apply Nat.eqb_neq; auto). rewrite M1. cbn [bind]. rewrite M3. reflexivity. }
+  rewrite NX. destruct T as [|x T']; cbn [hd_error bind].
+  - rewrite (node_deref_bumped_k _ p n); auto.
+    + cbn [bind]. rewrite put_node_twice, put_node_same by auto. reflexivity.
+    + rewrite dnode_put_node by auto. rewrite Nat.eqb_refl. reflexivity.
+  - destruct (TC x (or_introl eq_refl)) as [XC XP].
+    destruct (sg_node _ _ G x XC) as [m [k [M1 [M2 [M3 _]]]]]. rewrite M1.
+    assert (LTX : x < length (k_nodes s)) by (eapply dnode_lt; eauto).
+    rewrite dnode_put_node by auto. replace (Nat.eqb p x) with false by (symmetry; apply Nat.eqb_neq; auto). rewrite M1. cbn [bind].
+    fold (bumpk m).
+    rewrite (node_deref_bumped_k _ p n); auto.
+    + cbn [bind].
+      assert (ST : put_node (put_node (put_node s p (bumpk n)) x (bumpk m)) p n = put_node s x (bumpk m)).
+      { rewrite (put_node_comm _ p x) by auto. rewrite put_node_twice. rewrite (put_node_comm _ x p) by auto. rewrite (put_node_same s p n); auto. }
+      rewrite ST. rewrite dnode_put_node by auto. rewrite Nat.eqb_refl. cbn [bind]. simpl sn_key. rewrite M2.
+      rewrite (nkey_some s x m k M1 M2). reflexivity.
+    + rewrite dnode_put_node by (unfold put_node; simpl; rewrite upd_length; auto).
+      replace (Nat.eqb x p) with false by (symmetry; apply Nat.eqb_neq; auto). rewrite dnode_put_node by auto. rewrite Nat.eqb_refl. reflexivity.
 Qed.
